@@ -56,6 +56,12 @@ func ShapeSet(thorough bool) [][]int {
 		return Shapes(4, []int{1, 2, 3})
 	}
 	out := Shapes(5, []int{1, 2, 3})
+	if Deep {
+		// thorough tier only (DESIGN 9.11): sizes 4 and 5 in every position of the lower ranks
+		out = append(out, Shapes(4, []int{1, 2, 3, 4})...)
+		out = append(out, Shapes(3, []int{1, 2, 3, 4, 5})...)
+		out = append(out, Shapes(2, []int{1, 2, 3, 4, 5, 6, 7, 8})...)
+	}
 	out = append(out, Shapes(6, []int{1, 2})...)
 	for _, s := range Shapes(6, []int{1, 2}) {
 		if len(s) != 6 {
@@ -77,8 +83,14 @@ func SmallShapeSet(thorough bool) [][]int {
 	if !thorough {
 		return Shapes(3, []int{1, 2, 3})
 	}
+	if Deep {
+		return dedup(append(Shapes(4, []int{1, 2, 3}), Shapes(3, []int{1, 2, 3, 4})...))
+	}
 	return Shapes(4, []int{1, 2, 3})
 }
+
+// Deep is set for the thorough tier: the shape sets then also contain sizes 4..8 in the lower ranks.
+var Deep bool
 
 // BroadcastSources returns every shape that broadcasts to target: any number
 // of leading dimensions dropped, every kept dimension either equal or 1.
